@@ -5,6 +5,7 @@ from __future__ import annotations
 import ast
 
 from sa.astutil import (
+    loops_in,
     arg_or_kw,
     call_name,
     calls_in,
@@ -303,6 +304,30 @@ def r4_shared_inputs_read_only(ctx):
     for c in calls_in(fit.node):
         if isinstance(c.func, ast.Attribute) and c.func.attr == "set" and dotted(c.func.value) in ("processor",):
             ctx.fail(fit.qual + "#set", "fitness sets parameters on a stored processor directly", where=fit, node=c)
+    _no_stores_on_shared_elements(ctx)
+
+
+def _no_stores_on_shared_elements(ctx):
+    """Per-evaluation functions of the fitting problem run concurrently (DaskBFE, delayed champion re-simulation) on ONE
+    problem object: they must not write attributes / items of `self` or of the elements of its shared collections
+    (`for var in self._variables: var.current = ..` makes one candidate run with another candidate's values)."""
+    for q in ("pyxel.calibration.fitting_datatree:ModelFittingDataTree.update_processor", "pyxel.calibration.fitting_datatree:ModelFittingDataTree.fitness", "pyxel.calibration.fitting_datatree:ModelFittingDataTree._apply_parameters", "pyxel.calibration.fitting_datatree:ModelFittingDataTree.convert_to_parameters"):
+        f = ctx.func(q)
+        shared = {"self"}
+        for lp in loops_in(f.node):
+            if isinstance(lp, ast.For) and (dotted(expand(f, lp.iter)) or "").startswith("self.") or (isinstance(lp, ast.For) and isinstance(expand(f, lp.iter), ast.Call) and any((dotted(a_) or "").startswith("self.") for a_ in expand(f, lp.iter).args)):
+                shared |= {x.id for x in ast.walk(lp.target) if isinstance(x, ast.Name)}
+        bad = []
+        for st, t in stores(f.node, lambda t: isinstance(t, (ast.Attribute, ast.Subscript))):
+            base = t
+            while isinstance(base, (ast.Attribute, ast.Subscript)):
+                base = base.value
+            if isinstance(base, ast.Name) and base.id in shared:
+                bad.append(st)
+        for c in calls_in(f.node):
+            if call_name(c) == "setattr" and c.args and isinstance(c.args[0], ast.Name) and c.args[0].id in shared:
+                bad.append(c)
+        ctx.check(not bad, q + "#problem-read-only", "the shared problem object and its variables are only read" if not bad else f"`{norm(bad[0])[:70]}` writes into state shared by all concurrent evaluations of the problem: an evaluation can run with another candidate's values", where=f, node=bad[0] if bad else f.node)
 
 
 def r5_readout_replace_complete(ctx):
